@@ -29,6 +29,13 @@ def main():
                       "mz": [], "scale": 1, "asq": "bed3", "long": 1,
                       "opts": {"ips": ips, "bs": bs, "zooms": [], "zmode": "manual", "compress": 1 - k, "inmem": 1, "rt": "multi", "threads": 2, "pass": 1 + k, "chan": 100}})
     judge(run, "C01", "Obs_BigWig", longc, nt, desc)
+    # many chromosomes (more than one block of the chromosome tree) with names of very different lengths
+    many = []
+    for k, (nch, bs) in enumerate([(300, 256), (40, 4)] + ([(700, 256)] if run.thorough else [])):
+        many.append({"kind": "bw", "chroms": [50] * nch, "names": "varlen", "items": [[c, c % 7, c % 7 + 1 + c % 3, 1 + c % 3] for c in range(1, nch + 1)],
+                     "vmap": "int", "allq": 0, "zq": 0, "mz": [], "scale": 1, "asq": "bed3", "long": 0,
+                     "opts": {"ips": 2, "bs": bs, "zooms": [], "zmode": "manual", "compress": k % 2, "inmem": 1, "rt": "multi", "threads": 2, "pass": 1 + k % 2, "chan": 100, "sort": "all"}})
+    judge(run, "C01", "Obs_BigWig", many, nt, desc)
     run.cov["rule"] = ("every sorted non-overlapping layout within the TLC bounds x (ips, zoom list) from TLC, free options "
                        "(compress, inmemory, runtime/threads, passes, channel, block size) paired; non-trivial = at least 2 values; "
                        "distinct by (items, ips, zooms)")
